@@ -198,7 +198,7 @@ Proof.
     apply RM_bind; [destruct pc; rm|intro]. destruct b; [apply RM_with_scope; apply Hts|apply RM_ret].
   - (* TLoop *)
     apply RM_bind; [apply RM_eval_i64|intros n]. destruct n; [|apply RM_ret].
-    apply RM_loop_iterations. intro i. apply RM_with_scope. rm. apply Hts.
+    destruct (loop_iteration_limit <? z)%Z; [apply RM_abort|]. apply RM_loop_iterations. intro i. apply RM_with_scope. rm. apply Hts.
   - (* TMacroDef *) rm.
   - (* TInvoke *)
     apply RM_bind; [apply RM_get|intro c]. apply RM_bind; [rm|intro].
